@@ -100,7 +100,9 @@ class C01(SMSpec):
                     + [mkjob("S4", 3, 1, variant=5, default_acts=True), mkjob("S8", 3, 1, ext=False, variant=2, default_acts=True)]
                     + [mkjob("S12", 3, 1, variant=1)])
         return ([mkjob(s, 4, 2, variant=1) for s in ("S1", "S3", "S4", "S5")]
-                + [mkjob(s, 3, 3, ext_per_iter=2, nsn_depth=2, variant=2, double_nsn=True) for s in ("S1", "S3", "S4", "S5")]
+                + [mkjob(s, 2, 3, ext_per_iter=2, nsn_depth=2, variant=2, double_nsn=True) for s in ("S1", "S3", "S4", "S5")]
+                + [mkjob("S12", 4, 2, variant=1), mkjob("S11", 6, 1, ext=False, variant=2), mkjob("S8", 5, 1, ext=False, variant=1),
+                   mkjob("S4", 3, 2, variant=5, default_acts=True)]
                 + [self.stepjob(s, 2, 1) for s in ("S1", "S3", "S4", "S5", "S8")])
 
     def reach_required(self, tier):
@@ -136,7 +138,9 @@ class C04(SMSpec):
                     + [self.twinjob("S1", 3, 0), self.twinjob("S4", 3, 0)]
                     + [mkjob("S1", 1, 0, ext_per_iter=3, variant=1), mkjob("S4", 1, 0, ext_per_iter=3, variant=1), mkjob("S3", 1, 0, ext_per_iter=3, variant=2)])
         return ([mkjob(s, 4, 2, variant=3) for s in ("S1", "S2", "S3", "S4", "S8")]
-                + [mkjob(s, 3, 3, ext_per_iter=2, nsn_depth=2, variant=4) for s in ("S1", "S2", "S4", "S8")])
+                + [mkjob(s, 2, 3, ext_per_iter=2, nsn_depth=2, variant=4) for s in ("S1", "S2", "S4", "S8")]
+                + [mkjob("S1", 1, 1, ext_per_iter=3, variant=1), mkjob("S4", 2, 0, ext_per_iter=3, variant=1), mkjob("S3", 3, 1, variant=5, by_ref=True),
+                   self.twinjob("S1", 4, 1), self.twinjob("S4", 4, 0), self.twinjob("S2", 5, 0)])
 
     def reach_required(self, tier):
         return ["not-running-after-iteration", "default-fallback", "stop-event", "running-after-iteration",
